@@ -1,5 +1,5 @@
 (* C13 -- state broadcast: ids strictly increase, receivers converge on the latest state. *)
-From FI Require Import Base StateBcast StateBcastSpec StateBcastProofs.
+From FI Require Import Base StateBcast StateBcastSpec StateBcastProofs StateIdProofs.
 
 (* For every contract-respecting history (any number of receive futures with any requested
    ids, wakers private to each future, borrowed or shared handles) the monitor [state_ok] of
@@ -15,6 +15,13 @@ Theorem C13_protocol : forall k ops,
   legal_run (init k) ops -> private_wakers ops ->
   state_ok k (trace (init k) ops) = true.
 Proof. exact protocol_holds. Qed.
+
+(* The published id (the probe after every call of the trace) moves only with a successful
+   send - strictly upwards - or with the id test hook: no other call, in particular no REJECTED
+   send, re-labels the stored state. *)
+Theorem C13_ids_move_only_with_send : forall k ops,
+  legal_run (init k) ops -> ids_stable (trace (init k) ops) = true.
+Proof. exact ids_stable_holds. Qed.
 
 (* a successful send increments the id by exactly one and replaces the state; a send is
    rejected iff the channel is closed or the ids are exhausted, and then changes nothing *)
@@ -85,6 +92,7 @@ Example C13_witness :
 Proof. vm_compute. repeat split; reflexivity. Qed.
 
 Print Assumptions C13_protocol.
+Print Assumptions C13_ids_move_only_with_send.
 Print Assumptions C13_send.
 Print Assumptions C13_ids_bounded.
 Print Assumptions C13_wakes_all.
